@@ -55,9 +55,9 @@ class FrameAlgebra(object):
 
     def __init__(self, fi, path):
         self.fi = fi
-        self.sock = sy(fi.params[1])
-        self.buf = sy(fi.params[2])
-        self.thr = sy(fi.params[3])
+        self.sock = sy(fi.all_params[1])
+        self.buf = sy(fi.all_params[2])
+        self.thr = sy(fi.all_params[3])
         self.path = path
         self.cur = B(('PAYLOAD',))      # id + fields, as Packet.write left it
         self.wire = []
@@ -210,7 +210,7 @@ def writer(report, db, S, M):
     paths = [p for p in S.run(wb) if p.returns]
     report.floor('paths of _write_buffer', len(paths), 3)
     payload = "PAYLOAD"
-    thr = sy(wb.params[3])
+    thr = sy(wb.all_params[3])
     kinds = set()
     for p in paths:
         fa = FrameAlgebra(wb, p).run()
@@ -268,7 +268,7 @@ def writer(report, db, S, M):
                          'only the forms %s are produced' % sorted(kinds))
     # _write_packet passes the threshold iff compression is enabled
     wp = M.conn_method('_write_packet')
-    me = sy(wp.params[0])
+    me = sy(wp.all_params[0])
     write = db.find_method(pk, 'write')
     enabled_at = at(me, 'options', 'compression_enabled')
     nw = 0
@@ -311,7 +311,7 @@ def reader(report, db, S, M, rule_id='R01.2'):
                     'data length, inflate iff it is > 0, check the size, '
                     'replace the buffer and rewind; then read the id')
     rp = M.method(M.reactor, 'read_packet')
-    me, stream = sy(rp.params[0]), sy(rp.params[1])
+    me, stream = sy(rp.all_params[0]), sy(rp.all_params[1])
     pb = db.get_class(BUFFER, 'PacketBuffer')
     enabled_at = at(me, 'connection', 'options', 'compression_enabled')
     prob = {}
@@ -516,7 +516,7 @@ def isolation(report, db, cg, S, M, rule_id='R01.3'):
                     'this frame; decoding uses the per-frame buffer')
     from .c15 import raw_reads
     rp = M.method(M.reactor, 'read_packet')
-    stream = sy(rp.params[1])
+    stream = sy(rp.all_params[1])
     pb = db.get_class(BUFFER, 'PacketBuffer')
     type_ci = db.get_class(BASIC, 'Type')
     packet_ci = db.get_class(PACKET, 'Packet')
